@@ -256,6 +256,7 @@ inductive Ev where
   | logged (e : LogEntry)               -- one record appeared in the log
   | settled                             -- the call has returned: log and API must now agree
   | forget                              -- unobserved calls happened: what was handed out before is no longer known
+  | blind                               -- from now on calls are not observed one by one (parallel stress)
   deriving Repr
 
 abbrev Verdict := String × String
@@ -297,6 +298,7 @@ def check (c : Cfg) (m : Mon) : Ev → Mon × List Verdict
       | some (x, y) => [("attrib", s!"log maps p{x.pub} ports {x.lo}-{x.hi} to k{x.priv} and ports {y.lo}-{y.hi} to k{y.priv} at the same time")]
       | none => [])
   | .forget => ({ m with held := [] }, [])
+  | .blind => (m, [])
   | .settled =>
     (m, if !c.logOn then [] else
       (m.held.filterMap fun (k, b) =>
@@ -305,6 +307,61 @@ def check (c : Cfg) (m : Mon) : Ev → Mon × List Verdict
       (m.logHeld.filterMap fun x =>
         if AMap.lookup m.held x.priv = some { pub := x.pub, lo := x.lo, hi := x.hi } then none
         else some ("attrib", s!"log says k{x.priv} holds {x.lo}-{x.hi} on p{x.pub} but the API does not")))
+
+/-! ### the record ledger: every allocation and every release is recorded exactly once
+
+  The second half of `attrib`.  Each observed new allocation owes one assignment record and each
+  observed release one release record, identified by (private address, public address, first port).
+  A record that no observed call explains (a duplicate, a stray one) and a call whose record has not
+  appeared when the log has been flushed are both failures.  Records may appear later than the call
+  (the logger buffers), never more or fewer than the calls. -/
+
+abbrev RecKey := Nat × Nat × Nat
+
+structure Ledger where
+  held  : AMap Nat Blk := []
+  expA  : List RecKey := []       -- assignment records still owed
+  expR  : List RecKey := []       -- release records still owed
+  blind : Bool := false
+  deriving Repr
+
+/-- (is it an assignment?, key) of a record -/
+def recKey : LogEntry → Bool × RecKey
+  | .assign _ priv pub ps _ _ => (true, priv, pub, ps.toNat)
+  | .allocate _ priv pub p => (true, priv, pub, p.toNat)
+  | .release priv pub ps => (false, priv, pub, ps.toNat)
+  | .deallocate priv pub p => (false, priv, pub, p.toNat)
+
+def owed (c : Cfg) (l : Ledger) (key : RecKey) (old : List RecKey) : List RecKey :=
+  if c.logOn && !l.blind then key :: old else old
+
+def ledger (c : Cfg) (l : Ledger) : Ev → Ledger × List Verdict
+  | .got k b =>
+    match AMap.lookup l.held k with
+    | some _ => ({ l with held := AMap.insert l.held k b }, [])
+    | none => ({ l with held := AMap.insert l.held k b, expA := owed c l (k, b.pub, b.lo) l.expA }, [])
+  | .released k =>
+    match AMap.lookup l.held k with
+    | some b => ({ l with held := AMap.erase l.held k, expR := owed c l (k, b.pub, b.lo) l.expR }, [])
+    | none => (l, [])
+  | .lookedNone _ => (l, [])
+  | .logged e =>
+    if l.blind then (l, []) else
+    if (recKey e).1 then
+      if l.expA.contains (recKey e).2 then ({ l with expA := l.expA.erase (recKey e).2 }, [])
+      else (l, [("attrib", s!"assignment record for k{(recKey e).2.1} (p{(recKey e).2.2.1} from port {(recKey e).2.2.2}) that no allocation explains: duplicate or stray record")])
+    else
+      if l.expR.contains (recKey e).2 then ({ l with expR := l.expR.erase (recKey e).2 }, [])
+      else (l, [("attrib", s!"release record for k{(recKey e).2.1} (p{(recKey e).2.2.1} from port {(recKey e).2.2.2}) that no release explains: duplicate or stray record")])
+  | .settled =>
+    ({ l with expA := [], expR := [] },
+      (l.expA.map fun (k, p, lo) => ("attrib", s!"k{k} was given the block from port {lo} on p{p} but the flushed log has no assignment record for it")) ++
+      (l.expR.map fun (k, p, lo) => ("attrib", s!"k{k} released the block from port {lo} on p{p} but the flushed log has no release record for it")))
+  | .forget => ({ l with held := [], expA := [], expR := [] }, [])
+  | .blind => ({ l with blind := true }, [])
+
+def feedL (c : Cfg) (l : Ledger) (evs : List Ev) : Ledger × List Verdict :=
+  evs.foldl (fun acc ev => ((ledger c acc.1 ev).1, acc.2 ++ (ledger c acc.1 ev).2)) (l, [])
 
 /-- run the monitor over a list of events, collecting the verdicts (used by the driver on the
     implementation's observations and by the refinement theorem on the model's) -/
